@@ -11,6 +11,7 @@ def run(ctx):
     if rows is None:
         return
     A.coverage(ctx, rows)
+    A.fetch_height_compare(ctx, "cases_C09_fh")
     nmon, classes = A.monitors(ctx, rows, "C09")
     ctx.cov["monitor_findings"] = classes
     ctx.evaluations = sum(len(r["steps"]) for r in rows)
